@@ -42,6 +42,7 @@ type scenario struct {
 	Later     bool      // one more Execute after the first group returned ("pending or later Execute")
 	WriteSide bool      // enumerate write-side failures instead of read-side faults
 	Flip      bool      // enumerate single flipped bytes instead of EOF / error / garbage
+	Crash     bool      // the peer dies: from the moment the read fault is reached every client write fails too
 	StreamLen int       // healthy server->client transcript length (measured)
 	Writes    int       // healthy number of client writes (measured)
 }
@@ -59,6 +60,8 @@ func scenarios(tier string) []scenario {
 		{Name: "v1-1run", V1: true, Runs: []runSpec{r("v1")}},
 		{Name: "hello-badversion", Hello: "badversion"},
 		{Name: "hello-badschema", Hello: "badschema"},
+		{Name: "v3-1run-signals-crash", Runs: []runSpec{{RunID: "r1", ToStep: 1}}, Crash: true, Later: true},
+		{Name: "v3-2runs-crash", Runs: []runSpec{{RunID: "r1", ToStep: 1, FromStep: 1}, r("r2")}, Crash: true},
 		{Name: "v3-1run-writefail", Runs: []runSpec{{RunID: "r1", ToStep: 1}}, WriteSide: true, Later: true},
 		{Name: "v3-2runs-writefail", Runs: []runSpec{r("r1"), r("r2")}, WriteSide: true},
 		{Name: "v1-1run-writefail", V1: true, Runs: []runSpec{r("v1")}, WriteSide: true},
@@ -237,6 +240,9 @@ func body(sc *scenario, measure bool) func() {
 		case sc.Hello == "badschema":
 			hello = helloBadSchema
 		}
+		if sc.Crash && !measure {
+			c2s.FailIf = func() bool { return s2c.ReadFault != nil && s2c.FaultHit() }
+		}
 		peer := &atpkit.Peer{In: c2s.Reader(), Out: s2c.Writer(), OutLink: s2c, Hello: hello, V1: sc.V1, Plans: map[string]atpkit.RunPlan{}}
 		o.peer = peer
 		for _, x := range sc.Runs {
@@ -311,7 +317,25 @@ func judge(sc *scenario, r *mcrt.Result) (string, []mc.Finding) {
 	}
 	switch r.Status {
 	case mcrt.StPanic:
-		add("panic: "+panicClass(r.PanicValue), fmt.Sprintf("thread T%d panicked: %s\n%s", r.PanicTID, r.PanicValue, r.PanicStack))
+		sig := "panic: " + panicClass(r.PanicValue)
+		if strings.Contains(r.PanicValue, "potential deadlock") {
+			// Close gave up waiting for the client's own goroutines: which of them had not finished is the cause
+			seen := map[string]bool{}
+			var who []string
+			for _, b := range r.Blocked {
+				if strings.HasPrefix(b.Name, "peer") || strings.Contains(b.Where, "waitWithTimeout") {
+					continue
+				}
+				w := fmt.Sprintf("%s@%s", role(b.Name), b.Op)
+				if !seen[w] {
+					seen[w] = true
+					who = append(who, w)
+				}
+			}
+			sort.Strings(who)
+			sig += " [not finished: " + strings.Join(who, ", ") + "]"
+		}
+		add(sig, fmt.Sprintf("thread T%d panicked: %s\n%s\nother threads: %v", r.PanicTID, r.PanicValue, r.PanicStack, r.Blocked))
 	case mcrt.StHorizon:
 		add("step horizon exceeded (livelock?)", "")
 	case mcrt.StBlocked:
